@@ -64,10 +64,14 @@ def worker():
 
     for job in spec["jobs"]:
         res = {}
-        for sched in ("ctor", "ones"):
+        for sched in ("ctor", "ones", "ctor-str"):
             try:
                 if sched == "ctor":
                     m = CandleManager(mk(job["rows"]), timeframe=job["tf"])
+                elif sched == "ctor-str":
+                    # the same naive wall-clock timestamps handed in as ISO strings (Candle parses them)
+                    m = CandleManager([Candle(open=r[1], high=r[2], low=r[3], close=r[4], volume=r[5], timestamp=r[0]) for r in job["rows"]],
+                                      timeframe=job["tf"])
                 else:
                     m = CandleManager(timeframe=job["tf"])
                     for c in mk(job["rows"]):
@@ -196,7 +200,7 @@ def run(tier, seed, focus=None):
     offset_fail = set()
     for z in results:
         for j in jobs:
-            if dict(DATES)[j["date"]] is None and any(bad(z, j["id"], s) for s in ("ctor", "ones")):
+            if dict(DATES)[j["date"]] is None and any(bad(z, j["id"], s) for s in ("ctor", "ones", "ctor-str")):
                 offset_fail.add((z, j["tf"]))
 
     prio = {tf: i for i, tf in enumerate(["H1", "D1", "H4", "T30", "T45", "T15", "T5", "T1", "S30"])}
@@ -205,7 +209,7 @@ def run(tier, seed, focus=None):
             jid = j["id"]
             merges = len(want[jid]) < len(j["rows"])
             failing = []
-            for sched in ("ctor", "ones"):
+            for sched in ("ctor", "ones", "ctor-str"):
                 if not rep.wants([f"{z}/{jid}/"]):
                     continue
                 rep.checked += 1
@@ -234,7 +238,7 @@ def run(tier, seed, focus=None):
                 group,
                 did,
                 FN_ROUND,
-                f"TZ={z} {j['tf']} {kind} differs from {'reference' if not ref_ok else 'UTC run'} ({'both schedules' if len(failing) == 2 else sched}): {text}",
+                f"TZ={z} {j['tf']} {kind} differs from {'reference' if not ref_ok else 'UTC run'} ({'every schedule' if len(failing) == 3 else '+'.join(f[0] for f in failing)}): {text}",
                 {
                     "TZ": z,
                     "timeframe": j["tf"],
